@@ -25,6 +25,7 @@ RULES_DOC = dict(common.SHARED_DOC)
 RULES_DOC["X4"] = common.X4_DOC
 RULES_DOC["R5"] = "page release: when the pool is destroyed, every undo of the stack guard (protect_memory(.., FALSE)) covers exactly the region that is then released (same address and size as the ABTU_free_largepage that follows); the size recorded with a user-supplied stack is the size the caller passed, unrounded"
 RULES_DOC["R6"] = "every local memory pool is initialised against the global pool of its own kind (descriptor pools feed on the descriptor pool, stack pools on the stack pool); ABT_thread_create_many reaches a creation only with no attribute or with an attribute whose user stack was tested NULL (one user stack is never given to several ULTs)"
+RULES_DOC["R7"] = "when a local memory pool overflows, the buckets it keeps are all moved down: the shift loop runs to the length of the bucket array (a bucket returned to the global pool does not stay referenced locally)"
 RULES_DOC.update({
     "R1": "provenance pairing: flag family = allocator family; free arm = inverse deallocator, exactly once; freed pointer term = allocated pointer term",
     "R2": "sync LIFO: CAS/store expects the pointer+tag loaded in the same iteration and installs tag+1",
@@ -804,6 +805,37 @@ def rule_R6(P, rep):
     rep.need(m >= 2, "ABT_thread_create_many: %d creating paths" % m)
 
 
+def rule_R7(P, rep):
+    if not P.fns("ABTI_mem_pool_free"):
+        rep.skip("R7", "no memory pool in this configuration")
+        return
+    F = P.fn("ABTI_mem_pool_free", "src/include/abti_mem_pool.h")
+    fld = [x for x in P.record("ABTI_mem_pool_local_pool")["fields"] if x["n"] == "buckets"]
+    m = re.search(r"\[(\d+)\]", fld[0]["t"]) if fld else None
+    rep.need(m, "ABTI_mem_pool_local_pool::buckets is not an array")
+    N = int(m.group(1))
+    # loops whose body copies buckets[i] to a lower slot
+    n = 0
+    for _b, i, lh, rh in F.stores():
+        if rh is None or F.field_of(lh) != ("ABTI_mem_pool_local_pool", "buckets") or \
+                F.field_of(rh) != ("ABTI_mem_pool_local_pool", "buckets"):
+            continue
+        from abtverif import ctrldep
+        heads = [a for a, k in ctrldep.closure(F, F.block_of(i)) if F.blocks[a].tk in ("ForStmt", "WhileStmt", "DoStmt") and F.blocks[a].tc is not None]
+        bounds = []
+        for a in heads[:1]:
+            nd = F.nodes[F.strip(cfg.cond_atom(F, F.blocks[a].tc, True)[0])]
+            if nd.get("k") == "bin" and nd["op"] in ("<", "<=", "!="):
+                cv = F.nodes[F.strip(nd["rh"])].get("cv")
+                if cv is not None:
+                    bounds.append(cv + (1 if nd["op"] == "<=" else 0))
+        n += 1
+        rep.ob("R7", "ABTI_mem_pool_free shifts every kept bucket down (loop runs to %d)" % N, bounds == [N],
+               "the shift loop stops at %s of %d buckets: a returned bucket stays referenced, a kept one is lost" % (bounds, N),
+               loc=F.loc(i), site="mem_pool_free/shift")
+    rep.need(n >= 1, "ABTI_mem_pool_free: no bucket shift found")
+
+
 def run(P, rep, tier):
     common.rule_X4(P, rep)
     common.run_shared(P, rep, which=("X1", "X2"))
@@ -813,3 +845,4 @@ def run(P, rep, tier):
     rule_R4(P, rep)
     rule_R5(P, rep)
     rule_R6(P, rep)
+    rule_R7(P, rep)
